@@ -50,6 +50,7 @@ def _get_cov_inv_and_std_inv(
         logger.warning(wm)
         # Note, `_std_inv` is not properly initialized yet
         si = std_inv if std_inv is not None else _std_inv
+        si = si if callable(si) else Partial(operator.mul, si)
         noise_std_inv_sq = si(tree_map(jnp.real, tree_map(jnp.ones_like, primals))) ** 2
         _cov_inv = Partial(operator.mul, noise_std_inv_sq)
     else:
